@@ -47,6 +47,14 @@ def run_job(job):
                 if not job.get("keep_trace", True):
                     r.pop("trace", None)
                 events.append({"op": "invoke", "result": r})
+            elif k == "inspect":
+                from .inspect_font import inspect_font
+
+                w.settle()
+                pth = w.abs(op["path"])
+                info = inspect_font(pth) if os.path.exists(pth) else {"ok": False, "error": "missing"}
+                w.settle()
+                events.append({"op": "inspect", "label": op.get("label"), "path": op["path"], "result": info})
             elif k == "listing":
                 events.append({"op": "listing", "label": op.get("label"), "listing": w.listing(op["path"])})
             else:
